@@ -51,6 +51,12 @@ CLAIMED = {
              'Constraint and FeatureModel equality (sorted(), frozenset, recursive str) are bounded: permuted rebuilt copies, all element pairs, every '
              'single-point edit, hash-then-edit sequences, hostile names.',
         note=BASE + 'hash() uninterpreted. Relation / Constraint / FeatureModel laws are bounded only.'),
+    'C17': dict(category='other', design_ref='DESIGN.md section 4 C17, section 9',
+        text='Proved for all well-formed models: totality (no empty min/max/mean/median, no zero divisor, no missing key) and the size / ratio clauses of the '
+             '17 metric methods that use list-valued caches, get_ratio against its definition, the ancestors helper (invariant), frames of all 40 metric methods '
+             'and of execute, report reset before delegation (history independence). Bounded: all 40 metrics against definitions computed on the model '
+             'description, the identities, the filter, reused objects.',
+        note=BASE + 'Metric methods over dict-valued caches are bounded only. statistics.mean/median, round uninterpreted. Reflection resolved statically.'),
     'C12': dict(category='other', design_ref='DESIGN.md section 4 C12, section 9',
         text='Decided deductively for all inputs by the effect analysis and call-site checks on the real source: each of the eight Writer.transform is pure '
              '(writes nothing reachable from the writer / model, no process-wide state), reaches no order- or process-dependent primitive (set iteration, hash, '
